@@ -546,10 +546,13 @@ impl Compress {
             if label_len & 0xc0 == 0xc0 {
                 panic!("copy_compressed_name() called on an already compressed name");
             }
-            if let Some(ref_offset) =
-                dict.insert(&packet[offset..final_offset], base_offset + offset)
-            {
-                assert!(offset < 65536 >> 2); // Checked in dict.insert()
+            // The dictionary records where the suffix lands in the output, which is where a
+            // pointer to it must lead (`base_offset + offset` is only that location as long as
+            // nothing before it was shortened).
+            let _ = base_offset;
+            let output_offset = compressed.len();
+            if let Some(ref_offset) = dict.insert(&packet[offset..final_offset], output_offset) {
+                assert!(output_offset < 65536 >> 2); // Checked in dict.insert()
                 compressed.push((ref_offset >> 8) as u8 | 0xc0);
                 compressed.push((ref_offset & 0xff) as u8);
                 break;
